@@ -55,6 +55,7 @@ def main():
     ap.add_argument("--only-seeded", action="store_true")
     ap.add_argument("--tier", default="quick")
     ap.add_argument("--parallel", type=int, default=2)
+    ap.add_argument("--jobs", type=int, default=int(os.environ.get("SELFTEST_JOBS", "0")), help="worker processes per check run (default 16 // parallel)")
     a = ap.parse_args()
     jobs = []
     ids = [i.upper() for i in a.ids]
@@ -78,7 +79,7 @@ def main():
                 if names and os.path.basename(d) not in names:
                     continue
                 jobs.append((prop, diff))
-    per = max(1, 16 // max(1, a.parallel))
+    per = a.jobs or max(1, 16 // max(1, a.parallel))
     ok = True
     with ThreadPoolExecutor(max_workers=a.parallel) as ex:
         for prop, diff, status, info in ex.map(lambda j: run_one(j[0], j[1], a.tier, per), jobs):
